@@ -863,6 +863,22 @@ func directedBlocks(r *Rng, tier string, e func(op, cls string, args ...string))
 			}
 		}
 	}
+	// directed: the degenerate filters - loaded with an EMPTY bit array (matches everything, never updated) and
+	// unloaded (matches nothing) - on blocks of 1..4 transactions, every flag
+	for flags := 0; flags < 3; flags++ {
+		for ntx := 1; ntx <= 4; ntx++ {
+			txs := []*wire.MsgTx{}
+			for j := 0; j < ntx; j++ {
+				t := wire.NewMsgTx(1)
+				t.AddTxIn(wire.NewTxIn(&wire.OutPoint{Hash: *mkHash(r.Bytes(32)), Index: uint32(j)}, pushOnly(r.Bytes(30))))
+				t.AddTxOut(wire.NewTxOut(0, p2pkh(r.Bytes(20)), wire.TokenData{}))
+				txs = append(txs, t)
+			}
+			e("blk", "emptybits:f"+itoa(flags), "-", itoa(r.Pick(0, 1, 5)), u64s(uint64(uint32(r.U64()))), itoa(flags), fmtTxs(txs))
+			e("txm", "emptybits:f"+itoa(flags), "-", itoa(r.Pick(0, 1, 5)), u64s(uint64(uint32(r.U64()))), itoa(flags), fmtTxs(txs))
+			e("blk", "unloaded", "nil", "0", "0", "0", fmtTxs(txs))
+		}
+	}
 	// directed: a child with TWO parents. It spends an output of each; for each parent the spent output is either the
 	// matching one (its outpoint enters the filter under the flag) or another, non-matching output of a parent that
 	// still matches through its other output; all six orders of (child, parent1, parent2); every flag. The child is
